@@ -391,7 +391,7 @@ PROPS = {
     "C06": dict(chk=[6], n=(500, 4000), tiny=(12, 60)),
     "C07": dict(chk=[7], n=(500, 4000), tiny=(14, 70)),
     "C08": dict(chk=[8], n=(500, 4000), tiny=(10, 50)),
-    "C09": dict(chk=[], n=(500, 4000), tiny=(12, 60), progress=True),
+    "C09": dict(chk=[5], n=(500, 4000), tiny=(12, 60), progress=True),
     "C10": dict(chk=[10], n=(500, 4000), tiny=(6, 30)),
     "C11": dict(chk=[11], n=(500, 4000), tiny=(10, 50)),
     "C12": dict(chk=[12], n=(400, 3000), tiny=(0, 10)),
@@ -499,6 +499,8 @@ def parse_case_text(txt):
             cur["gen"] = w[1]
         elif w[0] == "reps":
             cur["reps"] = int(w[1])
+        elif w[0] == "freeze":
+            cur["freeze"] = [int(w[1]), int(w[2])]
         elif w[0] == "sched":
             cur["sched"] = None if w[1] == "-" else ([] if w[1] == "." else [int(x) for x in w[1].split(",")])
         elif w[0] == "end":
@@ -953,3 +955,52 @@ def special_c13(prop, tier, seed, bins, out, problems):
 
 
 SPECIAL["C13"] = special_c13
+
+
+def special_c09(prop, tier, seed, bins, out, problems):
+    """adversary of the wait-freedom claim on the crate: on the known-size kinds one thread is frozen at an arbitrary
+    point (after k of its steps) for as long as any other thread has not finished its program; the others must finish
+    (the harness aborts the case as a hang otherwise).  The schedule the harness chose is then replayed on the model."""
+    binp = bins.get("wrapping")
+    if binp is None:
+        return
+    n = 300 if tier == "quick" else 3000
+    r = gen_cases.Rng(seed * 911 + 9)
+    cases = []
+    for i in range(n):
+        c = gen_cases.gen_conc(r, "C09-frz-%d" % i, gen_cases.WITH_SKIP if r.chance(1, 2) else gen_cases.LOOPS,
+                               kinds=[("slice", 3), ("vec", 3), ("array", 2), ("range", 2)], adaptors=r.chance(1, 5))
+        if len(c["progs"]) < 2:
+            c["progs"].append(["next:val"])
+        c["freeze"] = [r.below(len(c["progs"])), r.below(8)]
+        c["sched"] = None
+        cases.append(c)
+    itraces, dead = run_impl(binp, cases)
+    iblocks, order = parse_blocks(itraces)
+    replay = []
+    frozen_ok = 0
+    for c in cases:
+        cid = c["id"]
+        il = iblocks.get(cid)
+        if cid in dead or il is None:
+            out["violations"].append(dict(case=c, stream="frozen-thread", checker="process",
+                                          what="the harness process died on this case: %s" % dead.get(cid, "no output")))
+            continue
+        if any(l.startswith("complete 0") for l in il):
+            out["violations"].append(dict(case=c, stream="frozen-thread", checker="progress", impl_trace=il,
+                                          what="known-size kind: with thread %d frozen after %d of its steps the other threads do not finish (hang)" % tuple(c["freeze"])))
+            continue
+        frozen_ok += 1
+        c2 = json.loads(json.dumps(c))
+        c2.pop("freeze", None)
+        c2["sched"] = sched_of(il)
+        c2["gen"] = "random"
+        replay.append(c2)
+    out["evaluations"] += len(cases)
+    out["random_schedules"] += len(cases)
+    # the schedules chosen under the adversary, replayed in lock-step on the model and the crate
+    explore(prop, PROPS[prop], replay, binp, "frozen-replay", PROPS[prop]["chk"], out)
+    extra_coverage.setdefault(prop, {})["frozen_thread_cases"] = frozen_ok
+
+
+SPECIAL["C09"] = special_c09
